@@ -135,7 +135,8 @@ class GPyRegression:
 
             var = self._rbf_var + self._rbf_bias
             var -= kx.dot(self._rbf_woodbury_inv.dot(kx.T))
-            var += self._rbf_noisevar  # likelihood
+            if not noiseless:
+                var += self._rbf_noisevar  # likelihood
 
             return mu, var
         else:
